@@ -161,6 +161,15 @@ func (g *FnGen) instr(ins ssa.Instruction) {
 		}
 		v := g.val(i.Val)
 		g.frameCheck(a, i.Pos())
+		if a.Fam == "$struct" {
+			st := a.rootType().Underlying().(*types.Struct)
+			for k := 0; k < st.NumFields(); k++ {
+				f, _, _ := g.fieldFam(a.rootType(), k)
+				g.loopFrameCheck(f, a.Ref, i.Pos())
+			}
+		} else {
+			g.loopFrameCheck(a.Fam, a.Ref, i.Pos())
+		}
 		g.store(g.cur, a, v.T)
 	case *ssa.Slice:
 		g.sliceInstr(i)
@@ -659,6 +668,7 @@ func (g *FnGen) mapUpdate(i *ssa.MapUpdate) {
 	g.safety("nilmap", fmt.Sprintf("(not (= %s 0))", m.T), "assignment to entry in nil map", i.Pos())
 	g.frameCheckFam("map", m.T, i.Pos())
 	pf, ps, vf, vs := g.mapFams2(mt)
+	g.loopFrameCheck(pf, m.T, i.Pos())
 	hp := g.heapGet(g.cur, pf, ps)
 	hv := g.heapGet(g.cur, vf, vs)
 	lf, ls := g.mapLenFam(mt)
